@@ -340,5 +340,5 @@ def s_cases(thorough):
 
 
 def worker(ctx):
-    n = ctx.share(ctx.scale(1600, 40000))
+    n = ctx.share(ctx.scale(1600, 24000))
     ctx.hyp(st.lists(s_cases(ctx.thorough), min_size=12, max_size=12), lambda b: ctx.check("batch", b), n, label="c16")
